@@ -539,3 +539,15 @@ func FaultAfter(status int, extra [][2]string, total, k int, fault, framing, id 
 func Garbage() Script {
 	return Script{Steps: []Step{{Op: "raw", Raw: "\x00\x01garbage-not-http\r\n\r\nzzzz"}, {Op: "close"}}}
 }
+
+// JSONResponse answers with a fixed JSON document (Content-Length framing).
+func JSONResponse(status int, body, id string) Script {
+	hs := [][2]string{{"X-Backend-Id", id}, {"Content-Type", "application/json"}, {"Content-Length", strconv.Itoa(len(body))}, {"Connection", "close"}}
+	return Script{Steps: []Step{{Op: "head", Status: status, Headers: hs}, {Op: "raw", Raw: body}, {Op: "close"}}}
+}
+
+// OpenAICompletion and AnthropicMessage are minimal valid success bodies.
+const (
+	OpenAICompletion = `{"id":"c1","object":"chat.completion","created":1,"model":"x","choices":[{"index":0,"message":{"role":"assistant","content":"ok"},"finish_reason":"stop"}],"usage":{"prompt_tokens":1,"completion_tokens":1,"total_tokens":2}}`
+	AnthropicMessage = `{"id":"msg_1","type":"message","role":"assistant","model":"x","content":[{"type":"text","text":"ok"}],"stop_reason":"end_turn","usage":{"input_tokens":1,"output_tokens":1}}`
+)
